@@ -67,17 +67,20 @@ def run(ctx):
                 raise MachineryError("vacuous: no program with shape tag %s" % t)
         # binding self-test: an accepted program relabelled "must be rejected" has to be reported
         import copy
-        probe = next(it for it in items if it["expect"]["kind"] == "rows" and it["expect"]["pts"] and not evalrun.judge(it)[0])
-        bad = copy.deepcopy(probe)
-        bad["expect"] = {"kind": "reject"}
-        if not any(r["observable"] == "out-of-range-subscript-accepted" for r in evalrun.judge(bad)[0]):
-            raise MachineryError("binding self-test failed")
-        bad = copy.deepcopy(probe)
-        for pt in bad["expect"]["pts"]:
-            blk = next(b for b in pt["dae"] if b)
-            blk[0] = [blk[0][0] + blk[0][1], blk[0][1]]
-        if not any(r["observable"] == "residual-value" for r in evalrun.judge(bad)[0]):
-            raise MachineryError("binding self-test failed: corrupted selected element accepted")
+        probe = next((it for it in items if it["expect"]["kind"] == "rows" and it["expect"]["pts"] and not evalrun.judge(it)[0]), None)
+        if probe is None and not ctx.violations:
+            raise MachineryError("binding self-test impossible: no program of the family conforms")
+        if probe is not None:      # (on a tree with violations everywhere there may be nothing clean to corrupt)
+            bad = copy.deepcopy(probe)
+            bad["expect"] = {"kind": "reject"}
+            if not any(r["observable"] == "out-of-range-subscript-accepted" for r in evalrun.judge(bad)[0]):
+                raise MachineryError("binding self-test failed")
+            bad = copy.deepcopy(probe)
+            for pt in bad["expect"]["pts"]:
+                blk = next(b for b in pt["dae"] if b)
+                blk[0] = [blk[0][0] + blk[0][1], blk[0][1]]
+            if not any(r["observable"] == "residual-value" for r in evalrun.judge(bad)[0]):
+                raise MachineryError("binding self-test failed: corrupted selected element accepted")
         # as-built switches (SlicesRangeChecked, LoopIndexRangeChecked = FALSE): counterexample programs + model conformance
         wit = [it for it in asbuilt if not it["model"]["agrees"]]
         if not wit:
